@@ -470,3 +470,55 @@ func ZZ_C10_ReadFrom(q, until, units, other int) {
 	vrt.Assert(tr.unflushed == 0, "c02-flushed-after-last-byte")
 	vrt.Reach("c10-readfrom-done")
 }
+
+// ZZ_C01_BigVector: a vectored write whose total crosses the largest pooled size (65536) on a non-blocking queue
+// with exactly one free slot behind a sender that has not started (manual executor): the call is either accepted
+// whole (one queue slot, transmitted contiguously and intact) or refused and then contributes nothing - never a
+// part of it. Afterwards a small write; the sender then runs.
+//
+//	shape: 0 {1, 65536}   1 {32769, 32768}   2 {65536, 1}   3 {1, 65535} (total exactly 65536)
+func ZZ_C01_BigVector(q, entry, shape int) {
+	tr := newZZTransport()
+	pl := NewPipeline()
+	ex := &zzManualExecutor{}
+	ch := newChannelWith(context.Background(), pl, tr, ex, 1, q, false).(*channel)
+	pl.(*pipeline).channel = ch
+	var want []byte
+	for k := 0; k < q-1; k++ {
+		p := []byte{byte(0x10 + k), vrt.Byte()}
+		n, err := ch.Write1(p)
+		vrt.Assert(err == nil && n == 2, "c01-accepted-write-reports-full-length")
+		want = append(want, p...)
+	}
+	sizes := [][2]int{{1, 65536}, {32769, 32768}, {65536, 1}, {1, 65535}}[shape]
+	a := vrt.Bytes(sizes[0])
+	b := vrt.Bytes(sizes[1])
+	var n int64
+	var err error
+	if entry == 3 {
+		n, err = ch.CtxWritev(context.Background(), [][]byte{a, b})
+	} else {
+		n, err = ch.Writev([][]byte{a, b})
+	}
+	if err == nil {
+		vrt.Assert(n == int64(sizes[0]+sizes[1]), "c01-accepted-write-reports-full-length")
+		want = append(append(want, a...), b...)
+		vrt.Reach("c01-big-vector-accepted")
+	} else {
+		vrt.Assert(n == 0 && err == ErrAsyncNoSpace, "c01-failed-write-reports-zero")
+		vrt.Reach("c01-big-vector-refused")
+	}
+	ex.runAll()
+	tail := []byte{0x7e, vrt.Byte()}
+	tn, terr := ch.Write1(tail)
+	vrt.Assert(terr == nil && tn == 2, "c01-accepted-write-reports-full-length")
+	want = append(want, tail...)
+	ex.runAll()
+	vrt.Assert(len(tr.log) == len(want), "c01-failed-call-contributes-nothing")
+	if len(tr.log) == len(want) {
+		i := vrt.IntIn(0, len(want)-1)
+		vrt.Assert(tr.log[i] == want[i], "c01-payload-unmodified")
+	}
+	vrt.Assert(tr.unflushed == 0, "c02-flushed-after-last-byte")
+	vrt.Reach("c01-big-vector-done")
+}
